@@ -20,13 +20,13 @@ func TestVerifC19SoundnessHistogram(t *testing.T) {
 		"invalid:honest-prover:histogram:all-ones", "invalid:honest-prover:histogram:sum-one-non-bit",
 		"invalid:honest-prover:histogram:non-bit", "invalid:honest-prover:histogram:random-vector")
 	type pr struct{ length, chunk uint }
-	params := []pr{{1, 1}, {2, 1}, {2, 2}, {4, 3}, {4, 2}, {11, 3}, {100, 10}, {7, 7}, {5, 64}, {16, 4}, {9, 8}, {8, 9}}
-	shares := []uint8{2, 3, 5}
+	params := []pr{{1, 1}, {2, 1}, {2, 2}, {4, 3}, {4, 2}, {11, 3}, {100, 10}, {7, 7}, {5, 64}, {16, 4}, {9, 8}, {8, 9}, {70, 1}}
+	shares := []uint8{2, 3, 5, 9}
 	if lib.Thorough() {
 		params = append(params, pr{3, 2}, pr{64, 8}, pr{65, 8}, pr{255, 16}, pr{256, 1}, pr{1000, 32})
 		shares = append(shares, 4, 16, 255)
 	}
-	reps := lib.Scale(2, 6)
+	reps := lib.Scale(8, 16)
 	type cs struct {
 		p pr
 		n uint8
@@ -38,7 +38,13 @@ func TestVerifC19SoundnessHistogram(t *testing.T) {
 			if n > 16 && p.length > 128 {
 				continue
 			}
-			for k := 0; k < reps; k++ {
+			rp := reps
+			if n > 16 {
+				rp = 1 // cost grows linearly with the number of aggregators
+			} else if n > 5 {
+				rp = lib.Scale(1, 2)
+			}
+			for k := 0; k < rp; k++ {
 				cases = append(cases, cs{p, n, k})
 			}
 		}
